@@ -470,7 +470,19 @@ def install(lib, np_):
       raise Unsupported('np.cov on rank %d' % s.shape.rank)
     d = s.shape.dims[1]
     dc = cx.conc(d)
-    b = 1 if (bias is not None and isinstance(bias, VInt) and bias.conc() == 1) else 0
+    def flag(v, default):
+      if v is None or isinstance(v, VNone):
+        return default
+      if isinstance(v, (VInt, VBool)):
+        c = v.conc()
+        if c is not None:
+          return bool(c)
+      raise Unsupported('np.cov with a symbolic rowvar / bias / ddof (line %s)' % cx.line())
+    if any(k in kw for k in ('ddof', 'fweights', 'aweights', 'y')):
+      raise Unsupported('np.cov with ddof / weights / y (line %s)' % cx.line())
+    if flag(rowvar, True):
+      raise Unsupported('np.cov with rowvar=True (variables in rows) is not modelled (line %s)' % cx.line())
+    b = 1 if flag(bias, False) else 0
     term = (TH.covb(s.term) if b else TH.cov(s.term)) if s.term is not None else None
     if dc == 1:
       return cx.new(term, [], 'f')
